@@ -199,86 +199,160 @@ theorem pairBad_of_lll {a b : Entry} (ha : rangeOk a = true) (hb : rangeOk b = t
       · simp [hl]
     simp [hs1, hs2]
 
-/-! ## soundness of the linear pass -/
+/-! ## soundness of the cheap pass -/
 
-theorem sortedOk_cons (e : Entry) (es : List Entry) :
-    sortedOk (e :: es) = true ↔ rangeOk e = true ∧ headOk e es = true ∧ sortedOk es = true := by
-  simp [sortedOk, and_assoc]
+/-- `x ⪯ y` as a proposition -/
+def Lle (x y : Str) : Prop := x = y ∨ lll x y = true
 
-theorem sortedOk_rangeOk : ∀ (l : List Entry), sortedOk l = true → ∀ b ∈ l, rangeOk b = true
-  | [], _, b, hb => by cases hb
-  | e :: es, h, b, hb => by
-    obtain ⟨h1, _, h3⟩ := (sortedOk_cons e es).mp h
-    rcases List.mem_cons.mp hb with rfl | hb
-    · exact h1
-    · exact sortedOk_rangeOk es h3 b hb
+theorem lle_iff (x y : Str) : lle x y = true ↔ Lle x y := by
+  simp [lle, Lle]
 
-/-- `x = y ∨ x ≪ y` -/
-def lle (x y : Str) : Prop := x = y ∨ lll x y = true
+theorem Lle.trans {x y z : Str} (h1 : Lle x y) (h2 : Lle y z) : Lle x z := by
+  rcases h1 with rfl | h1
+  · exact h2
+  · rcases h2 with rfl | h2
+    · exact Or.inr h1
+    · exact Or.inr (lll_trans _ _ _ h1 h2)
 
-/-- after a checked head all `low`s are `⪰` the head's `low` -/
-theorem lows_after : ∀ (l : List Entry) (n : Entry), rangeOk n = true → headOk n l = true → sortedOk l = true →
-    ∀ b ∈ l, lle n.low b.low
-  | [], _, _, _, _, b, hb => by cases hb
-  | m :: rest, n, hn, hh, hs, b, hb => by
-    obtain ⟨hm, hhm, hsr⟩ := (sortedOk_cons m rest).mp hs
-    obtain ⟨_, hn2, _, hn4⟩ := (rangeOk_iff n).mp hn
-    unfold headOk at hh
-    rcases Bool.or_eq_true _ _ |>.mp hh with h1 | h1
-    · -- n.high ≪ m.low
-      have hnm : lll n.low m.low = true := strLe_lll _ _ _ hn4 (by
-        have := (rangeOk_iff n).mp hn; omega) h1
-      rcases List.mem_cons.mp hb with rfl | hb
-      · exact Or.inr hnm
-      · rcases lows_after rest m hm hhm hsr b hb with heq | hl
-        · exact Or.inr (heq ▸ hnm)
-        · exact Or.inr (lll_trans _ _ _ hnm hl)
-    · -- the same range again
-      simp only [Bool.and_eq_true] at h1
-      obtain ⟨⟨hsame, _⟩, hrest⟩ := h1
-      rcases List.mem_cons.mp hb with rfl | hb
-      · left
-        simp only [sameRange, Bool.and_eq_true, beq_iff_eq] at hsame
-        exact hsame.1.2
-      · exact lows_after rest n hn hrest hsr b hb
+theorem lowsSorted_pairwise : ∀ (l : List Entry), lowsSorted l = true → l.Pairwise (fun a b => Lle a.low b.low)
+  | [], _ => List.Pairwise.nil
+  | [_], _ => List.pairwise_singleton _ _
+  | a :: b :: l, h => by
+    simp only [lowsSorted, Bool.and_eq_true] at h
+    have ih := lowsSorted_pairwise (b :: l) h.2
+    have hab := (lle_iff _ _).mp h.1
+    rw [List.pairwise_cons]
+    refine ⟨?_, ih⟩
+    intro c hc
+    rcases List.mem_cons.mp hc with rfl | hc
+    · exact hab
+    · exact hab.trans ((List.pairwise_cons.mp ih).1 c hc)
 
-theorem head_pairs : ∀ (l : List Entry) (e : Entry), rangeOk e = true → headOk e l = true → sortedOk l = true →
-    ∀ b ∈ l, pairBad e b = false
-  | [], _, _, _, _, b, hb => by cases hb
-  | n :: rest, e, he, hh, hs, b, hb => by
-    obtain ⟨hn, hhn, hsr⟩ := (sortedOk_cons n rest).mp hs
+theorem head_pairs : ∀ (l : List Entry) (e : Entry), rangeOk e = true → (∀ b ∈ l, rangeOk b = true) →
+    l.Pairwise (fun a b => Lle a.low b.low) → headOk e l = true → ∀ b ∈ l, pairBad e b = false
+  | [], _, _, _, _, _, b, hb => by cases hb
+  | n :: rest, e, he, hr, hp, hh, b, hb => by
+    rw [List.pairwise_cons] at hp
     unfold headOk at hh
     rcases Bool.or_eq_true _ _ |>.mp hh with h1 | h1
     · rcases List.mem_cons.mp hb with rfl | hb
-      · exact pairBad_of_lll he hn h1
-      · have hb' := sortedOk_rangeOk rest hsr b hb
-        rcases lows_after rest n hn hhn hsr b hb with heq | hl
+      · exact pairBad_of_lll he (hr _ List.mem_cons_self) h1
+      · have hb' := hr b (List.mem_cons_of_mem _ hb)
+        rcases hp.1 b hb with heq | hl
         · exact pairBad_of_lll he hb' (heq ▸ h1)
         · exact pairBad_of_lll he hb' (lll_trans _ _ _ h1 hl)
     · simp only [Bool.and_eq_true, Bool.not_eq_true'] at h1
-      obtain ⟨⟨_, hbad⟩, hrest⟩ := h1
       rcases List.mem_cons.mp hb with rfl | hb
-      · exact hbad
-      · exact head_pairs rest e he hrest hsr b hb
+      · exact h1.1
+      · exact head_pairs rest e he (fun c hc => hr c (List.mem_cons_of_mem _ hc)) hp.2 h1.2 b hb
+
+theorem scan_pairwise : ∀ (l : List Entry), (∀ b ∈ l, rangeOk b = true) →
+    l.Pairwise (fun a b => Lle a.low b.low) → scanOk l = true → l.Pairwise (fun a b => pairBad a b = false)
+  | [], _, _, _ => List.Pairwise.nil
+  | e :: es, hr, hp, hs => by
+    simp only [scanOk, Bool.and_eq_true] at hs
+    rw [List.pairwise_cons] at hp ⊢
+    exact ⟨head_pairs es e (hr e List.mem_cons_self) (fun b hb => hr b (List.mem_cons_of_mem _ hb)) hp.2 hs.1,
+      scan_pairwise es (fun b hb => hr b (List.mem_cons_of_mem _ hb)) hp.2 hs.2⟩
+
+theorem sortedOk_pairwise (l : List Entry) (h : sortedOk l = true) : l.Pairwise (fun a b => pairBad a b = false) := by
+  simp only [sortedOk, Bool.and_eq_true] at h
+  exact scan_pairwise l (fun b hb => List.all_eq_true.mp h.1.1 b hb) (lowsSorted_pairwise l h.1.2) h.2
 
 theorem pairViol_of_not_bad {path : List Str} {a b : Entry} (h : pairBad a b = false) : pairViol path a b = [] := by
   simp [pairViol, h]
 
-/-- **soundness of the linear pass**: a sibling list that passes `sortedOk` has no pair defect -/
-theorem sortedOk_sound (path : List Str) : ∀ (l : List Entry), sortedOk l = true → levelViol path l = []
+theorem levelViol_of_pairwise (path : List Str) : ∀ (l : List Entry),
+    l.Pairwise (fun a b => pairBad a b = false) → levelViol path l = []
   | [], _ => rfl
   | e :: es, h => by
-    obtain ⟨h1, h2, h3⟩ := (sortedOk_cons e es).mp h
+    rw [List.pairwise_cons] at h
     unfold levelViol
-    rw [sortedOk_sound path es h3, List.append_nil, List.flatMap_eq_nil_iff]
+    rw [levelViol_of_pairwise path es h.2, List.append_nil, List.flatMap_eq_nil_iff]
     intro b hb
-    exact pairViol_of_not_bad (head_pairs es e h1 h2 h3 b hb)
+    exact pairViol_of_not_bad (h.1 b hb)
+
+/-- **soundness of the cheap pass**: a sibling list that passes `sortedOk` has no pair defect -/
+theorem sortedOk_sound (path : List Str) (l : List Entry) (h : sortedOk l = true) : levelViol path l = [] :=
+  levelViol_of_pairwise path l (sortedOk_pairwise l h)
+
+/-! ### pair defects do not depend on the order: the sorted copy may be checked instead -/
+
+theorem conflict_iff (p q : Dict) : conflict p q = true ↔ ∃ kv ∈ p, ∃ kw ∈ q, kv.1 = kw.1 ∧ kv.2 ≠ kw.2 := by
+  simp [conflict, List.any_eq_true]
+
+theorem conflict_comm (p q : Dict) : conflict p q = conflict q p := by
+  rw [Bool.eq_iff_iff, conflict_iff, conflict_iff]
+  constructor
+  · rintro ⟨kv, hkv, kw, hkw, h1, h2⟩; exact ⟨kw, hkw, kv, hkv, h1.symm, fun h => h2 h.symm⟩
+  · rintro ⟨kv, hkv, kw, hkw, h1, h2⟩; exact ⟨kw, hkw, kv, hkv, h1.symm, fun h => h2 h.symm⟩
+
+theorem sameRange_comm (a b : Entry) : sameRange a b = sameRange b a := by
+  unfold sameRange
+  rw [Bool.eq_iff_iff]
+  simp only [Bool.and_eq_true, beq_iff_eq]
+  constructor <;> rintro ⟨⟨h1, h2⟩, h3⟩ <;> exact ⟨⟨h1.symm, h2.symm⟩, h3.symm⟩
+
+theorem overlap_comm' (a b : Entry) : overlap a b = overlap b a := by
+  unfold overlap
+  rw [Bool.eq_iff_iff]
+  simp only [Bool.and_eq_true, beq_iff_eq]
+  constructor <;> rintro ⟨⟨h1, h2⟩, h3⟩ <;> exact ⟨⟨h1.symm, h3⟩, h2⟩
+
+theorem pairBad_comm (a b : Entry) : pairBad a b = pairBad b a := by
+  unfold pairBad dup clash
+  rw [sameRange_comm a b, conflict_comm a.props b.props, overlap_comm' a b]
+  by_cases h : a.length = b.length
+  · have h1 : (a.length == b.length) = true := by simpa using h
+    have h2 : (b.length == a.length) = true := by simpa using h.symm
+    simp only [h1, h2, if_true]
+    cases sameRange b a && conflict b.props a.props <;> cases a.children.isEmpty <;> cases b.children.isEmpty <;> simp
+  · have h1 : (a.length == b.length) = false := by simpa using h
+    have h2 : (b.length == a.length) = false := by simpa using (fun h' => h h'.symm)
+    simp only [h1, h2, Bool.false_eq_true, if_false, Bool.or_comm]
+
+theorem halve_perm : ∀ (l : List Entry), l.Perm ((halve l).1 ++ (halve l).2)
+  | [] => List.Perm.refl _
+  | [a] => List.Perm.refl _
+  | a :: b :: l => by
+    have ih := halve_perm l
+    simp only [halve, List.cons_append]
+    refine List.Perm.cons a ?_
+    exact (List.Perm.cons b ih).trans (List.perm_middle.symm)
+
+theorem mergeF_perm : ∀ (f : Nat) (xs ys : List Entry), (mergeF f xs ys).Perm (xs ++ ys)
+  | 0, xs, ys => List.Perm.refl _
+  | _ + 1, [], ys => by simp [mergeF]
+  | _ + 1, x :: xs, [] => by simp [mergeF]
+  | f + 1, x :: xs, y :: ys => by
+    unfold mergeF
+    split
+    · exact List.Perm.cons x (mergeF_perm f xs (y :: ys))
+    · exact (List.Perm.cons y (mergeF_perm f (x :: xs) ys)).trans (List.perm_middle.symm)
+
+theorem msortF_perm : ∀ (f : Nat) (l : List Entry), (msortF f l).Perm l
+  | 0, l => List.Perm.refl _
+  | f + 1, [] => by simp [msortF]
+  | f + 1, [a] => by simp [msortF]
+  | f + 1, a :: b :: l => by
+    unfold msortF
+    exact (mergeF_perm _ _ _).trans
+      ((List.Perm.append (msortF_perm f _) (msortF_perm f _)).trans (halve_perm (a :: b :: l)).symm)
+
+theorem msort_perm (l : List Entry) : (msort l).Perm l := msortF_perm _ l
+
+theorem sorted_copy_sound (path : List Str) (l : List Entry) (h : sortedOk (msort l) = true) : levelViol path l = [] := by
+  apply levelViol_of_pairwise
+  have hp := sortedOk_pairwise _ h
+  exact ((msort_perm l).pairwise_iff (fun {x y} hxy => by rw [pairBad_comm]; exact hxy)).mp hp
 
 theorem levelCheck_eq (path : List Str) (l : List Entry) : levelCheck path l = levelViol path l := by
   unfold levelCheck
   split
   · rename_i h; exact (sortedOk_sound path l h).symm
-  · rfl
+  · split
+    · rename_i h; exact (sorted_copy_sound path l h).symm
+    · rfl
 
 mutual
 theorem belowFastE_eq : ∀ (path : List Str) (e : Entry), belowFastE path e = belowE path e
@@ -291,6 +365,92 @@ theorem belowFastL_eq : ∀ (path : List Str) (l : List Entry), belowFastL path 
     unfold belowFastL belowL
     rw [belowFastE_eq path e, belowFastL_eq path es]
 end
+
+/-! ## the piecewise line check -/
+
+theorem eat_iff : ∀ (p s r : Str), eat p s = some r ↔ s = p ++ r
+  | [], s, r => by simp [eat]
+  | _ :: _, [], r => by simp [eat]
+  | a :: p, b :: s, r => by
+    unfold eat
+    by_cases h : a = b
+    · subst h
+      simp [eat_iff p s r]
+    · simp only [h, if_false, List.cons_append, List.cons.injEq]
+      constructor
+      · intro h'; cases h'
+      · intro h'; exact absurd h'.1.symm h
+
+theorem eatAll_iff : ∀ (ps : List Str) (s r : Str), eatAll ps s = some r ↔ s = ps.flatten ++ r
+  | [], s, r => by simp [eatAll]
+  | p :: ps, s, r => by
+    unfold eatAll
+    cases h : eat p s with
+    | none =>
+      simp only [List.flatten_cons, List.append_assoc]
+      constructor
+      · intro h'; cases h'
+      · intro h'
+        have := (eat_iff p s (ps.flatten ++ r)).mpr h'
+        rw [h] at this; cases this
+    | some rest =>
+      have hs := (eat_iff p s rest).mp h
+      simp only [eatAll_iff ps rest r, List.flatten_cons, List.append_assoc]
+      rw [hs]
+      simp
+
+theorem rangePieces_flatten (r : Str × Option Str) : (rangePieces r).flatten = renderRange r := by
+  unfold rangePieces renderRange
+  cases r.2 <;> simp
+
+theorem rangesPieces_flatten : ∀ (rs : List (Str × Option Str)), (rangesPieces rs).flatten = renderRanges rs
+  | [] => rfl
+  | [r] => by simp [rangesPieces, renderRanges, rangePieces_flatten]
+  | r :: r' :: rs => by
+    have ih := rangesPieces_flatten (r' :: rs)
+    simp only [rangesPieces, renderRanges, List.flatten_append, List.flatten_cons, rangePieces_flatten] at ih ⊢
+    rw [ih]
+    simp
+
+theorem propPieces_flatten (kv : Str × Str) : (propPieces kv).flatten = renderProp kv := by
+  simp [propPieces, renderProp]
+
+theorem flatMap_propPieces_flatten : ∀ (d : Dict), (d.flatMap propPieces).flatten = d.flatMap renderProp
+  | [] => rfl
+  | kv :: d => by
+    simp only [List.flatMap_cons, List.flatten_append, propPieces_flatten, flatMap_propPieces_flatten d]
+
+theorem rowPieces_flatten (r : LRow) : (rowPieces r).flatten = renderRow r := by
+  unfold rowPieces renderRow
+  simp only [List.flatten_cons, List.flatten_append, rangesPieces_flatten, flatMap_propPieces_flatten,
+    List.append_assoc]
+
+theorem lineOkFast_eq (r : LRow) : lineOkFast r = lineOk r := by
+  unfold lineOkFast lineOk
+  congr 1
+  rw [Bool.eq_iff_iff]
+  simp only [beq_iff_eq]
+  constructor
+  · intro h
+    split at h
+    · rename_i heq
+      have := (eatAll_iff _ _ _).mp heq
+      rw [rowPieces_flatten, List.append_nil] at this
+      exact this.symm
+    · cases h
+  · intro h
+    have : eatAll (rowPieces r) r.raw = some [] := by
+      rw [eatAll_iff, rowPieces_flatten, List.append_nil]; exact h.symm
+    rw [this]
+
+theorem lineViolationsFast_eq (rows : List LRow) : lineViolationsFast rows = lineViolations rows := by
+  unfold lineViolationsFast lineViolations
+  congr 2
+  funext r
+  rw [lineOkFast_eq]
+
+theorem lineViolations_of_fast {rows : List LRow} {v : List Str} (h : lineViolationsFast rows = v) :
+    lineViolations rows = v := (lineViolationsFast_eq rows).symm.trans h
 
 /-! ## structural equality -/
 
